@@ -218,6 +218,7 @@ class C13(conncheck.ConnCheck):
 
         ex = explore.Explorer(lambda c, e: self.one_run(cfg, c, e), check, dev_kinds=('app', 'abandon'),
                               max_dev=cfg['max_dev'], dev_limits={'abandon': 1, 'app': 1}, cache=True, max_runs=400000)
+        ex.stop_when = lambda: res.counters['violating_cases'] >= 300
         ex.run()
         if ex.capped:
             res.caps.append('explorer run cap reached')
